@@ -151,6 +151,10 @@ def main(tier):
                 # only findings that depend on the native code generator can differ between configurations
                 if attr and not attr.startswith(("F05", "F06", "F07", "F09")):
                     attr = None
+            if attr is None and mode == "module" and sw == "jit" and ("succeeds" in kind or "void" in kind or "raises" in kind or "effects" in kind):
+                # baseline (JIT off) raises, the JIT configuration goes on: the error is lost in native code
+                if b and any(x[0] == "err" for x in b) and all(x[0] == "ok" for x in o if isinstance(x, tuple)):
+                    attr = c01.F12
             key = attr or "%s (%s, switch %s)" % (kind, "history" if is_hist else mode, sw)
             classes.setdefault(key, []).append((cname(c), mode, src, b, o))
     for key, items in sorted(classes.items()):
